@@ -29,17 +29,21 @@ from ..tlc import MachineryError
 CFG = {"quick": "ValueCodecQuick.cfg", "thorough": "ValueCodecThorough.cfg"}
 TIER = {"quick": {"extra": 2, "picks": 1}, "thorough": {"extra": 12, "picks": 2}}
 BATCH = 60
+HOST_N = {"Points.VERTEX": 3, "Curve.VERTEX": 4, "Curve.CELL": 3, "Surface.CELL": 2, "Grid2D.CELL": 4,
+          "BlockModel.CELL": 2, "Octree.CELL": 2}  # vertices / cells of the host objects built by _make_host
 NEG = [("ValueCodecDev_IntCastWraps.cfg", "UnrepresentableRejected"),
        ("ValueCodecDev_FloatCastUnchecked.cfg", "UnrepresentableRejected"),
        ("ValueCodecDev_BytesNotValidated.cfg", "UnrepresentableRejected"),
        ("ValueCodecDev_MetadataUuidLikeText.cfg", "RoundTrip"),
-       ("ValueCodecDev_MapKeyWrapsU32.cfg", "UnrepresentableRejected")]
+       ("ValueCodecDev_MapKeyWrapsU32.cfg", "UnrepresentableRejected"),
+       ("ValueCodecDev_TextLengthUnchecked.cfg", "TooLongRejected")]
 # signature emitted when (and only when) the implementation answers exactly what the named deviation predicts
 DEV_SIG = {"IntCastWraps": "integer-cast-wraps-out-of-range-int",
            "FloatCastUnchecked": "integer-cast-out-of-range-float",
            "BytesNotValidated": "text-nonutf8-bytes-unreadable",
            "MetadataUuidLikeText": "metadata-uuidlike-text-becomes-uuid",
-           "MapKeyWrapsU32": "valuemap-key-wraps-u32"}
+           "MapKeyWrapsU32": "valuemap-key-wraps-u32",
+           "TextLengthUnchecked": "text-longer-than-geometry-accepted"}
 REF_MAP = {1: "A", 2: "B"}
 BASE_MAP = {6: "base"}  # what a value map holds before an operation on an existing map (6 is in no key class)
 KIND_TYPE = {"Float": "FLOAT", "Integer": "INTEGER", "Boolean": "BOOLEAN", "Referenced": "REFERENCED", "Text": "TEXT"}
@@ -53,6 +57,8 @@ def _members(c, which, e, extra, seed):
     fam, cls = c["fam"], c[which][e]
     if fam == "Numeric":
         return R.num_members(c["src"], cls, extra, seed)
+    if fam == "Concat":
+        return R.num_members("float32", cls, extra, seed)  # float32 numbers, whatever array dtype carries them
     if fam == "Text":
         if c["src"] == "int64":
             return (3, 4, 100)
@@ -78,10 +84,12 @@ def n_picks(c, extra, seed, picks):
     if not _is_single(c):
         return picks
     n = max(len(_members(c, "elems", e, extra, seed)) for e in range(len(c["elems"])))
-    if c["aux"]:
+    if c["aux"] and not _is_host(c):
         n = max(n, max(len(_members(c, "aux", e, extra, seed)) for e in range(len(c["aux"]))))
     if c["fam"] == "Map" and c["op"] not in ("add", "assign"):
         n = min(n, 4 * picks)  # the operation shapes share the codec of add / assign, which get every member
+    if c["fam"] == "Concat":
+        n = min(n, 3 * picks)
     return n
 
 
@@ -91,6 +99,9 @@ def instantiate(item):
     rot = 0 if _is_single(c) else zlib.crc32(json.dumps(c, sort_keys=True).encode())
     out = {}
     for which in ("elems", "aux"):
+        if which == "aux" and _is_host(c):
+            out["aux"] = list(c["aux"])  # host and session, not value classes
+            continue
         vals = []
         for e in range(len(c[which])):
             mem = _members(c, which, e, extra, seed)
@@ -111,6 +122,31 @@ def _same_key(a, b):
         return hash(a) == hash(b) and a == b
     except Exception:  # pylint: disable=broad-except
         return False
+
+
+def _is_host(c):
+    return c["fam"] == "Numeric" and bool(c["aux"])
+
+
+def expand_host(case):
+    """A host case carries two classes; the array handed to the API repeats them up to the size of the host's
+    geometry (+-1 for the length relation).  Outcomes are per element, so o / ab are repeated the same way."""
+    c = case["c"]
+    if not _is_host(c):
+        return case
+    n_el = len(c["elems"])
+    length = HOST_N[c["aux"][0]] + {"shorter": -1, "equal": 0, "longer": 1}[c["lenrel"]]
+
+    def tile(outc):
+        out = dict(outc)
+        for key in ("enc", "devs"):
+            out[key] = [outc[key][i % n_el] for i in range(length)]
+        for key in ("stored", "live", "back"):
+            if outc[key]:
+                out[key] = [outc[key][i % n_el] for i in range(length)] + list(outc[key][n_el:])
+        return out
+
+    return {"c": dict(c, elems=[c["elems"][i % n_el] for i in range(length)]), "o": tile(case["o"]), "ab": tile(case["ab"])}
 
 
 def _geometry(c, length):
@@ -189,7 +225,7 @@ def _concrete(c, inst, outc, where, i):
     """Concrete value the outcome `outc` (o or ab of the CASE line) prescribes at position i of live/stored/back."""
     name = outc[where][i]
     elems = c["elems"]
-    val = R.num_value(inst["elems"][i]) if i < len(elems) and c["fam"] == "Numeric" else (
+    val = R.num_value(inst["elems"][i]) if i < len(elems) and c["fam"] in ("Numeric", "Concat") else (
         inst["elems"][i] if i < len(elems) else None)
     if i < len(elems) and name == elems[i]:
         return ("val", val)
@@ -368,10 +404,160 @@ def _write(ws, item, inst):
     return obs
 
 
+def _make_host(ws, name):
+    from geoh5py import objects
+    rng = np.random.default_rng(5)
+    if name == "Points":
+        return objects.Points.create(ws, vertices=rng.random((3, 3)))
+    if name == "Curve":
+        return objects.Curve.create(ws, vertices=rng.random((4, 3)))
+    if name == "Surface":
+        return objects.Surface.create(ws, vertices=rng.random((4, 3)), cells=np.array([[0, 1, 2], [1, 2, 3]]))
+    if name == "Grid2D":
+        return objects.Grid2D.create(ws, origin=[0, 0, 0], u_cell_size=1.0, v_cell_size=1.0, u_count=2, v_count=2)
+    if name == "BlockModel":
+        return objects.BlockModel.create(ws, origin=[0, 0, 0], u_cell_delimiters=np.array([0.0, 1, 2]),
+                                         v_cell_delimiters=np.array([0.0, 1]), z_cell_delimiters=np.array([0.0, 1]))
+    if name == "Octree":
+        return objects.Octree.create(ws, origin=[0, 0, 0], u_count=2, v_count=1, w_count=1, u_cell_size=1.0,
+                                     v_cell_size=1.0, w_cell_size=1.0)
+    raise MachineryError(f"unknown host {name}")
+
+
+def _refused(obs, exc, prep=False):
+    obs.update(verdict="reject", exc=f"{type(exc).__name__}: {str(exc)[:100]}")
+    if prep:
+        obs["prep"] = True
+    return obs
+
+
+def _host_phase1(ws, item, inst):
+    """Host cases: build the host object (and, for `set`, data of ordinary values) in the creating session."""
+    c = item["c"]
+    name, assoc = c["aux"][0].split(".")
+    obs = {"verdict": None, "assoc": assoc}
+    try:
+        obj = _make_host(ws, name)
+        count = obj.n_vertices if assoc == "VERTEX" else obj.n_cells
+        obs["obj"] = obj.uid
+        data = None
+        if c["op"] == "set":
+            data = obj.add_data({"d": {"values": _good(c["kind"], count), "type": KIND_TYPE[c["kind"]],
+                                       "association": assoc}})
+            obs["uid"] = data.uid
+    except Exception as exc:  # pylint: disable=broad-except
+        return _refused(obs, exc, prep=True)
+    if count != _geometry(c, len(inst["elems"])):
+        raise MachineryError(f"host {c['aux'][0]} has {count} elements, the case needs {_geometry(c, len(inst['elems']))}")
+    if c["aux"][1] == "creating":
+        return _host_op(obj, data, item, inst, obs)
+    obs["pending"] = True
+    return obs
+
+
+def _host_op(obj, data, item, inst, obs):
+    c = item["c"]
+    arg = R.build_array(c["src"], inst["elems"])
+    try:
+        if c["op"] == "set":
+            data.values = arg
+        else:
+            data = obj.add_data({"d2": {"values": arg, "type": KIND_TYPE[c["kind"]], "association": obs["assoc"]}})
+        obs.update(verdict="accept", live=data.values, uid=data.uid, live_map=None)
+        obs["class"] = type(data).__name__
+    except Exception as exc:  # pylint: disable=broad-except
+        _refused(obs, exc)
+    return obs
+
+
+def _host_phase2(ws, item, inst, obs):
+    """The same request in a later session: the objects come from the re-opened file and nothing has looked at
+    their geometry yet."""
+    try:
+        obj = ws.get_entity(obs["obj"])[0]
+        data = ws.get_entity(obs["uid"])[0] if item["c"]["op"] == "set" else None
+        if obj is None or (item["c"]["op"] == "set" and data is None):
+            raise LookupError("entity not found after re-open")
+    except Exception as exc:  # pylint: disable=broad-except
+        return _refused(obs, exc, prep=True)
+    return _host_op(obj, data, item, inst, obs)
+
+
+def _concat_phase1(ws, item, inst):
+    """Concat cases: a drillhole group with holes A (other data of the same name), B (the values of the case) and
+    C (no such data yet)."""
+    from geoh5py.groups import DrillholeGroup
+    from geoh5py.objects import Drillhole
+    c = item["c"]
+    obs = {"verdict": None}
+    try:
+        group = DrillholeGroup.create(ws, name="DH")
+        holes = [Drillhole.create(ws, parent=group, name=name, collar=np.r_[10.0 * k, 0.0, 0.0],
+                                  surveys=np.c_[[0.0, 10.0], [0.0, 0.0], [-90.0, -90.0]])
+                 for k, name in enumerate("ABC")]
+        holes[0].add_data({"assay": {"depth": np.arange(3.0), "values": np.array([1.5, np.nan, 3.25], dtype=c["src"])}})
+        obs.update(group=group.uid, other=holes[0].uid, hole=holes[1].uid, third=holes[2].uid)
+    except Exception as exc:  # pylint: disable=broad-except
+        return _refused(obs, exc, prep=True)
+    arg = R.build_array(c["src"], inst["elems"])
+    try:
+        data = holes[1].add_data({"assay": {"depth": np.arange(float(len(arg))), "values": arg}})
+        obs.update(verdict="accept", uid=data.uid, live_map=None)
+        if c["op"] == "write_read":
+            obs["live"] = data.values
+        else:
+            obs["pending"] = True
+    except Exception as exc:  # pylint: disable=broad-except
+        _refused(obs, exc)
+    return obs
+
+
+def _concat_phase2(ws, item, inst, obs):
+    """Second session: something happens to the other holes of the channel, then B is read for the first time."""
+    op = item["c"]["op"]
+    try:
+        other = ws.get_entity(obs["other"])[0]
+        hole = ws.get_entity(obs["hole"])[0]
+        if op == "reopen_remove_other":
+            other.remove_children(other.get_data("assay"))
+        elif op == "reopen_append_other":
+            third = ws.get_entity(obs["third"])[0]
+            third.add_data({"assay": {"depth": np.arange(2.0), "values": np.array([2.5, np.nan], dtype=item["c"]["src"])}})
+        elif op == "reopen_overwrite_other":
+            other.get_data("assay")[0].values = np.array([np.nan, 7.0, 8.0], dtype=item["c"]["src"])
+        elif op == "reopen_remove_hole":
+            ws.remove_entity(other)
+        elif op != "reopen_read":
+            raise MachineryError(f"unknown concat operation {op}")
+    except MachineryError:
+        raise
+    except Exception as exc:  # pylint: disable=broad-except
+        return _refused(obs, exc, prep=True)
+    try:
+        obs["live"] = hole.get_data("assay")[0].values
+    except Exception as exc:  # pylint: disable=broad-except
+        obs["live"] = None
+        obs["live_exc"] = f"{type(exc).__name__}: {str(exc)[:100]}"
+    return obs
+
+
 def _read_raw(h5, item, obs):
     c = item["c"]
     root = h5[list(h5)[0]]
     raw = {}
+    if c["fam"] == "Concat":
+        node = root["Groups"]["{%s}" % obs["group"]]["Concatenated Data"]
+        if "assay" not in node["Index"]:
+            raw["missing"] = True
+            return raw
+        rows = [r for r in node["Index"]["assay"][()].tolist() if canon_text(r[2]) == "{%s}" % obs["hole"]]
+        if len(rows) != 1:
+            raw["missing"] = True
+            return raw
+        dset = node["Data"]["assay"]
+        raw["dtype"] = (dset.dtype.kind, dset.dtype.itemsize)
+        raw["data"] = dset[()][int(rows[0][0]):int(rows[0][0]) + int(rows[0][1])]
+        return raw
     if c["kind"] == "Metadata":
         node = root["Objects"]["{%s}" % obs["obj"]]
         raw["json"] = canon_text(node["Metadata"][()][0]) if "Metadata" in node else None
@@ -398,6 +584,10 @@ def _read_back(ws, item, obs):
     c = item["c"]
     back = {}
     try:
+        if c["fam"] == "Concat":
+            back["value"] = ws.get_entity(obs["hole"])[0].get_data("assay")[0].values
+            back["map"] = None
+            return back
         if c["kind"] in ("Metadata", "Comments"):
             obj = ws.get_entity(obs["obj"])[0]
             if c["kind"] == "Metadata":
@@ -437,7 +627,18 @@ def _execute(items, insts):
         with _quiet():
             with Workspace.create(path) as ws:
                 for item, inst in zip(items, insts):
-                    observations.append(_write(ws, item, inst))
+                    if item["c"]["fam"] == "Concat":
+                        observations.append(_concat_phase1(ws, item, inst))
+                    elif _is_host(item["c"]):
+                        observations.append(_host_phase1(ws, item, inst))
+                    else:
+                        observations.append(_write(ws, item, inst))
+            if any(obs.get("pending") for obs in observations):
+                # a second session on the file: the request (or the scenario around it) happens after a re-open
+                with Workspace(path, mode="r+") as ws1:
+                    for item, inst, obs in zip(items, insts, observations):
+                        if obs.pop("pending", False):
+                            (_concat_phase2 if item["c"]["fam"] == "Concat" else _host_phase2)(ws1, item, inst, obs)
         if all(obs["verdict"] == "reject" for obs in observations):
             return observations
         with h5py.File(path, "r") as h5:
@@ -474,14 +675,16 @@ def _mismatches(item, inst, obs, outc):
     def want(where, i):
         return _concrete(c, inst, outc, where, i)
 
-    if fam in ("Numeric", "Text"):
+    if fam in ("Numeric", "Text", "Concat"):
         txt = fam == "Text"
         same = (lambda g, w: canon_text(g) == canon_text(w)) if txt else eq_num
         if c["op"] == "infer" and obs.get("class") != KIND_CLASS.get(kind):
             bad.append(("kind", f"data inferred as {obs.get('class')} instead of {KIND_CLASS.get(kind)}"))
         # live value
         live = _seq(obs.get("live"))
-        if live is None or len(live) != len(outc["live"]):
+        if "live_exc" in obs:
+            bad.append(("live", f"reading the values in the session of the operation raises {obs['live_exc']}"))
+        elif live is None or len(live) != len(outc["live"]):
             bad.append(("live", f"live values {live!r}: expected {len(outc['live'])} entries"))
         else:
             for i, got in enumerate(live):
@@ -607,7 +810,7 @@ def _short(x):
 
 def _describe(item, inst):
     c = item["c"]
-    vals = [R.num_value(v) if c["fam"] == "Numeric" else v for v in inst["elems"]]
+    vals = [R.num_value(v) if c["fam"] in ("Numeric", "Concat") else v for v in inst["elems"]]
     return (f"{c['kind']} op={c['op']} src={c['src']} classes={c['elems']}"
             + (f"/{c['aux']}" if c["aux"] else "") + f" lenrel={c['lenrel']} values={_short(vals)}"
             + (f" aux={_short(inst['aux'])}" if inst["aux"] else ""))
@@ -643,7 +846,7 @@ def judge(item, inst, obs):
     if not bad:
         return [], ("drift" if lenient and o["verdict"] == "reject" else "ok")
     ab_differs = any(ab[k] != o[k] for k in ("verdict", "stored", "live", "back"))
-    devs = sorted({d for d in o["devs"] if d})
+    devs = sorted({d for d in list(o["devs"]) + [o.get("cdev", "")] if d})
     if ab_differs and devs and not _mismatches(item, inst, obs, ab):
         sig = "+".join(DEV_SIG[d] for d in devs)
         summary = (f"{_describe(item, inst)}: the specification demands {o['verdict']} ({o['reason']}); geoh5py "
@@ -676,7 +879,8 @@ def _clean_refusal(item):
     """Numeric requests are refused before anything is written; a refused text / map / json / blob write may leave
     a half-written dataset behind that makes the file unreadable (see notes/C08.md).  Such cases share files only
     among themselves: a file whose writes were all refused is never re-opened."""
-    return item["c"]["fam"] == "Numeric" or "accept" in (item["o"]["verdict"], item["ab"]["verdict"])
+    return (item["c"]["fam"] in ("Numeric", "Concat") and not _is_host(item["c"])
+            ) or "accept" in (item["o"]["verdict"], item["ab"]["verdict"])
 
 
 _CONFIRMED = Counter()
@@ -703,6 +907,8 @@ def _replay_batch(items):
         stats["tag:" + res[1].split(":")[0]] += 1
         stats["fam:" + item["c"]["fam"]] += 1
         stats["kind:" + item["c"]["kind"]] += 1
+        if _is_host(item["c"]):
+            stats["host:" + ":".join(item["c"]["aux"])] += 1
         stats["verdict:" + item["o"]["verdict"] + ":" + item["o"]["reason"]] += 1
         for which in ("elems", "aux"):
             for cls in item["c"][which]:
@@ -760,6 +966,7 @@ def run(tier, seed):
     par = TIER[tier]
     res, cases = funcheck.enumerate_cases("values", "ValueCodec", CFG[tier], workers=1, heap="4g")
     items = []
+    cases = [expand_host(case) for case in cases]
     for case in cases:
         for pick in range(n_picks(case["c"], par["extra"], seed, par["picks"])):
             items.append({"c": case["c"], "o": case["o"], "ab": case["ab"], "pick": pick, "seed": seed,
@@ -768,6 +975,9 @@ def run(tier, seed):
     units = []
     alone = [it for it in items if it["c"]["fam"] == "Map" and _wrapped_map_invalid(it, instantiate(it))]
     rest = [it for it in items if not (it["c"]["fam"] == "Map" and _wrapped_map_invalid(it, instantiate(it)))]
+    sessions = [it for it in rest if it["c"]["fam"] == "Concat" or _is_host(it["c"])]  # files with a second session
+    rest = [it for it in rest if not (it["c"]["fam"] == "Concat" or _is_host(it["c"]))]
+    units += [sessions[i::max(1, len(sessions) // 16)] for i in range(max(1, len(sessions) // 16))]
     for group in ([it for it in rest if _clean_refusal(it)], [it for it in rest if not _clean_refusal(it)]):
         n_units = max(1, len(group) // BATCH)
         units += [group[i::n_units] for i in range(n_units) if group[i::n_units]]
@@ -785,7 +995,7 @@ def run(tier, seed):
         stats.update(part["stats"])
     neg = [funcheck.expect_violation("values", "ValueCodec", cfg, inv).violated for cfg, inv in NEG]
     # vacuity
-    for fam in ("Numeric", "Text", "Json", "Blob", "Map"):
+    for fam in ("Numeric", "Text", "Json", "Blob", "Map", "Concat"):
         if stats["fam:" + fam] == 0:
             raise MachineryError(f"no case of family {fam} was replayed")
     for need in ("NaN", "PosInf", "NegInf", "Subnormal", "FloatNDV", "NearNDV", "Frac", "IntSmall", "Zero", "One", "Two",
